@@ -426,7 +426,6 @@ type kase struct {
 	dueTotal       []int
 	failures       []core.Failure
 	tags           map[string]bool
-	badSeen        bool   // a B step happened (narrows the known-finding class)
 	done           []step // steps executed so far
 	lastCounted    int    // failures counted during the last step
 	forgetTimedOut bool   // a due forgetter did not run within the settle wait
@@ -601,7 +600,6 @@ func (k *kase) load(st step, bad bool) (ev string) {
 	ctx, cancel := caddy.NewContext(k.p.base)
 	mod, err := ctx.LoadModuleByID("http.handlers.reverse_proxy", k.handlerJSON(st, bad))
 	if bad {
-		k.badSeen = true
 		cancel()
 		if err == nil {
 			return "L?"
